@@ -2634,3 +2634,7 @@ mod tests {
         assert_eq!(storage.collect_garbage().await.unwrap(), 0);
     }
 }
+
+#[cfg(kani)]
+#[path = "/verif/harness/anda_object_store/lib.rs"]
+mod verif_kani;
